@@ -128,17 +128,28 @@ type c07Op struct {
 	Kind string // R report, S shrink, E expand, X more than the timeout passes without a report, G a gap of about the timeout (real-timer profile only), L controller loses leadership, P the stream is paused, Q the stream is resumed (the partition object is replaced), PQ = P then Q
 	Who  string // role, resolved against the state when the op runs: f0..f3 k-th in-sync follower, fl last in-sync follower, o0,o1 k-th out-of-sync replica, L the leader, U an unknown id
 	Pair string // cur | staleEpoch | staleLeader | prevPair
+	// Ctx is the context the request is made with: "" a live one, "dead" one
+	// whose deadline has already passed when the call is made (whatever the call
+	// has to replicate through Raft "times out": a report that completes the
+	// quorum then triggers an election that FAILS), "tight" one whose deadline
+	// is a millisecond away (the replication may or may not make it; the caller
+	// may be told "timed out" for an entry that is committed after all).
+	Ctx string
 }
 
 func (o c07Op) String() string {
 	switch o.Kind {
-	case "X", "L", "G", "P", "Q", "PQ":
+	case "X", "L", "G", "P", "Q", "PQ", "[", "]":
 		return o.Kind
 	}
-	if o.Pair == "" || o.Pair == "cur" {
-		return o.Kind + "." + o.Who
+	s := o.Kind + "." + o.Who
+	if o.Pair != "" && o.Pair != "cur" {
+		s += "." + o.Pair
 	}
-	return o.Kind + "." + o.Who + "." + o.Pair
+	if o.Ctx != "" {
+		s += "!" + o.Ctx
+	}
+	return s
 }
 
 func c07ProgString(p []c07Op) string {
@@ -255,6 +266,23 @@ type c07Report struct {
 	accepted    bool // named the pair that was current when the call was issued
 	wasFollower bool // the reporter was an in-sync follower when the call was issued
 	refused     bool // the call returned an error (set after the call; used only to explain a violation, never for the verdict)
+	// Used only to choose the fingerprint of an I5 violation, never for the
+	// verdict: issued / returned are values of the partition's event clock
+	// (0 = the call has not returned), settled says that the call returned at a
+	// point where no Raft entry could have been applied since it was issued
+	// except through the call itself (sequential execution, or the harness held
+	// the controller's proposal mutex from before the call until after its
+	// return), electionFailed that the call returned the error of a leader
+	// election it triggered.
+	issued, returned int64
+	settled          bool
+	electionFailed   bool
+}
+
+// c07Removal: a SHRINK_ISR entry seen by the log listener.
+type c07Removal struct {
+	id string
+	at int64 // event clock
 }
 
 type c07Boundary struct {
@@ -269,23 +297,30 @@ type c07Part struct {
 	prog   []c07Op
 	label  string
 
-	mu          sync.Mutex
-	p           *partition
-	last        c07Digest // state as of the last committed entry (maintained on the FSM goroutine)
-	created     bool
-	deleted     bool
-	entries     int // committed entries for this partition
-	epochLeader map[uint64]string
-	pairs       []c07Pair // leadership history, last = current
-	obsLE, obsE uint64    // largest epochs seen at any observation
-	seq         int
-	reports     []c07Report
-	bounds      []c07Boundary
-	trace       []string
-	failed      bool // a violation was recorded: the rest of the sequence is not run
-	concurrent  bool
-	onFSM       bool // set while the log listener holds mu
-	phaseStates []c07Digest // concurrent profile: every committed state since the last barrier
+	mu                                                     sync.Mutex
+	p                                                      *partition
+	last                                                   c07Digest // state as of the last committed entry (maintained on the FSM goroutine)
+	created                                                bool
+	deleted                                                bool
+	entries                                                int // committed entries for this partition
+	epochLeader                                            map[uint64]string
+	pairs                                                  []c07Pair // leadership history, last = current
+	obsLE, obsE                                            uint64    // largest epochs seen at any observation
+	seq                                                    int
+	reports                                                []c07Report
+	bounds                                                 []c07Boundary
+	trace                                                  []string
+	failed                                                 bool // a violation was recorded: the rest of the sequence is not run
+	concurrent                                             bool
+	onFSM                                                  bool         // set while the log listener holds mu
+	phaseStates                                            []c07Digest  // concurrent profile: every committed state since the last barrier
+	clock                                                  int64        // event clock: ticks at every call issue, call return and committed entry
+	removals                                               []c07Removal // SHRINK_ISR entries applied
+	gated                                                  bool         // run by the gated unit: calls are issued while the harness holds the proposal mutex (c07_gated_test.go)
+	gateHeld                                               bool         // gated unit: the harness holds the controller's proposal mutex right now
+	longCtx                                                bool         // live contexts get a long deadline (calls may sit behind the gate)
+	nFailedElections, nDeadCtx, nEntriesAfterCallerTimeout int
+	feStage, nLateAfterFailedElection                      int // coverage: 1 after a failed election, 2 once more than the timeout has passed since; a report taken in stage 2 is the situation of interest
 
 	// coverage
 	nChanges, nISRChanges, nStaleRefused, nReportsOK, nExpiredArmed, nUnarmed, nLost, nSkipped int
@@ -308,6 +343,12 @@ func (pt *c07Part) replay() map[string]interface{} {
 		"trace":    append([]string(nil), pt.trace...),
 		"profile":  map[bool]string{false: "simulated-expiry", true: "real-timer"}[pt.env.real],
 	}
+}
+
+func (pt *c07Part) entriesNow() int {
+	pt.mu.Lock()
+	defer pt.mu.Unlock()
+	return pt.entries
 }
 
 // fail must be called with pt.mu held.
@@ -457,6 +498,10 @@ func (pt *c07Part) onLog(index uint64, op *proto.RaftLog) {
 			what, cause = "expand("+op.ExpandISROp.ReplicaToAdd+")", "ExpandISR"
 		}
 		pt.nISRChanges++
+		pt.clock++
+		if op.Op == proto.Op_SHRINK_ISR {
+			pt.removals = append(pt.removals, c07Removal{op.ShrinkISROp.ReplicaToRemove, pt.clock})
+		}
 		pt.tr("log#%d %s naming (%s,%d) -> %s", index, what, named.Leader, named.Epoch, d)
 		if d.LeaderEpoch != prev.LeaderEpoch || d.Leader != prev.Leader {
 			pt.fail("C07:I1:isr-change-altered-leader", fmt.Sprintf("entry #%d %s changed leader/epoch from (%s,%d) to (%s,%d)", index, what, prev.Leader, prev.LeaderEpoch, d.Leader, d.LeaderEpoch), true)
@@ -474,6 +519,7 @@ func (pt *c07Part) onLog(index uint64, op *proto.RaftLog) {
 		pt.observe(d, cause)
 	case proto.Op_CHANGE_LEADER:
 		pt.nChanges++
+		pt.feStage = 0
 		rep.Count("leader_changes", 1)
 		pt.tr("log#%d CHANGE_LEADER %s -> %s", index, prev, d)
 		if d.LeaderEpoch <= prev.LeaderEpoch {
@@ -599,14 +645,59 @@ func (pt *c07Part) checkQuorum(index uint64, prev c07Digest) {
 		return r.seq > resetStart && r.accepted && !r.refused && !inWin && !counted[r.reporter]
 	})
 	carriedIDs := kit.SortedKeys(carried)
+	// Fingerprint refinements (the verdict is already taken).  (1) A reporter
+	// removed from the ISR whose reports had all RETURNED, at points where no
+	// entry could be applied behind the call's back, before its removal was
+	// applied: the witness was registered before the removal ran, so the
+	// removal did not forget it (distinct from a report call that OVERLAPS the
+	// apply of the removal, which is a check-then-act race inside the call).
+	// (2) Reports carried over a pause longer than the timeout although the
+	// election they had triggered FAILED.
+	var settledLeft []string
+	for _, id := range leftISR {
+		var removedAt int64
+		for _, rm := range pt.removals {
+			if rm.id == id {
+				removedAt = rm.at
+			}
+		}
+		ok, any := removedAt > 0, false
+		for _, r := range pt.reports {
+			if r.reporter != id || r.seq <= windowStart || r.pair != cur || r.refused || !r.wasFollower || r.issued > removedAt {
+				continue
+			}
+			any = true
+			if !r.settled || r.returned == 0 || r.returned > removedAt {
+				ok = false
+			}
+		}
+		if ok && any {
+			settledLeft = append(settledLeft, id)
+		}
+	}
+	failedElection := false
+	for _, r := range pt.reports {
+		if r.seq > resetStart && r.seq <= windowStart && r.pair == cur && r.electionFailed {
+			failedElection = true
+		}
+	}
 	var fp, why string
+	noSuffix := false
 	switch {
+	case pt.gated && len(valid)+len(settledLeft) >= need && len(settledLeft) > 0:
+		fp = "C07:I5:counted-report-that-returned-before-its-reporters-removal-was-applied"
+		why = fmt.Sprintf("the code must have counted %v: every report of theirs had returned before the entry that removed them from the ISR was applied (no report call overlapped the removal), and the removal did not forget them", settledLeft)
+		noSuffix = true
 	case len(valid)+len(leftISR) >= need && len(leftISR) > 0:
 		fp = "C07:I5:counted-reporter-removed-from-isr-after-its-report"
 		why = fmt.Sprintf("the code must have counted %v, removed from the ISR after reporting", leftISR)
 	case len(valid)+len(leftISR)+len(neverValid) >= need:
 		fp = "C07:I5:counted-reporter-not-in-sync-follower"
 		why = fmt.Sprintf("the code must have counted %v (the leader itself, an out-of-sync replica or an unknown id)", append(neverValid, leftISR...))
+	case len(valid)+len(leftISR)+len(neverValid)+len(carried) >= need && failedElection:
+		fp = "C07:I5:witnesses-kept-after-failed-election"
+		why = fmt.Sprintf("the code must have counted %v, whose reports were made before a pause longer than the timeout; the election those reports had triggered failed and the reports were neither dropped nor ever expired", carriedIDs)
+		pt.nChangeFromCarry++
 	case len(valid)+len(leftISR)+len(neverValid)+len(carried) >= need:
 		fp = "C07:I5:witnesses-kept-after-failover"
 		why = fmt.Sprintf("the code must have counted %v, whose reports named an earlier leader epoch or were made before a pause longer than the timeout that followed a completed failover", carriedIDs)
@@ -618,7 +709,7 @@ func (pt *c07Part) checkQuorum(index uint64, prev c07Digest) {
 		fp = "C07:I5:no-quorum-in-window"
 		why = "no set of reports made since the window was last reset explains the decision"
 	}
-	if pt.concurrent {
+	if pt.concurrent && !noSuffix {
 		fp += ":concurrent"
 	}
 	pt.fail(fp, fmt.Sprintf("entry #%d replaced leader %s (epoch %d, ISR %v): %d in-sync follower(s) %v, %d needed, but only %v reported (%s, %d) inside the window; %s",
@@ -867,6 +958,9 @@ func (pt *c07Part) exec(op c07Op) bool {
 		kind := pt.expire()
 		pt.mu.Lock()
 		pt.bounds = append(pt.bounds, c07Boundary{pt.seq, kind})
+		if pt.feStage == 1 {
+			pt.feStage = 2
+		}
 		if kind == "expired" {
 			pt.nExpiredArmed++
 		} else {
@@ -911,7 +1005,8 @@ func (pt *c07Part) exec(op c07Op) bool {
 	var desc, cause string
 	switch op.Kind {
 	case "R":
-		pt.reports = append(pt.reports, c07Report{seq: pt.seq, reporter: who, pair: pair, accepted: !stale, wasFollower: c07In(d0.followers(), who)})
+		pt.clock++
+		pt.reports = append(pt.reports, c07Report{seq: pt.seq, reporter: who, pair: pair, accepted: !stale, wasFollower: c07In(d0.followers(), who), issued: pt.clock})
 		desc, cause = fmt.Sprintf("ReportLeader(from %s, names (%s,%d))", who, pair.Leader, pair.Epoch), "ReportLeader"
 		call = func(ctx context.Context) *status.Status {
 			return e.srv.metadata.ReportLeader(ctx, &proto.ReportLeaderOp{Stream: pt.stream, Partition: 0, Replica: who, Leader: pair.Leader, LeaderEpoch: pair.Epoch})
@@ -930,24 +1025,74 @@ func (pt *c07Part) exec(op c07Op) bool {
 		pt.mu.Unlock()
 		return false
 	}
+	if op.Ctx != "" {
+		desc += " [context: " + op.Ctx + "]"
+		pt.nDeadCtx++
+	}
 	pt.tr("call %s", desc)
+	seqMode := !pt.concurrent // sequential execution: nothing else is in flight
+	long := pt.longCtx
 	pt.mu.Unlock()
 
-	ctx, cancel := c07Ctx()
+	var ctx context.Context
+	var cancel context.CancelFunc
+	switch op.Ctx {
+	case "dead":
+		ctx, cancel = context.WithDeadline(context.Background(), time.Now().Add(-time.Second))
+	case "tight":
+		ctx, cancel = context.WithDeadline(context.Background(), time.Now().Add(time.Millisecond))
+	default:
+		if long {
+			ctx, cancel = context.WithTimeout(context.Background(), 60*time.Second)
+		} else {
+			ctx, cancel = c07Ctx()
+		}
+	}
 	st := call(ctx)
 	cancel()
+	if op.Ctx != "" {
+		// The caller of a request whose deadline passed is told "timed out" while
+		// the entry it proposed may still be on its way through Raft.  Wait until
+		// everything handed to Raft so far has been applied (a barrier issued
+		// directly on the Raft node; it does not take the proposal mutex), so that
+		// such an entry is attributed to this call and not to the next one.
+		nb := pt.entriesNow()
+		if err := e.srv.getRaft().Barrier(20 * time.Second).Error(); err != nil {
+			e.rep.Count("drain_barrier_errors", 1)
+		}
+		if st != nil && pt.entriesNow() > nb {
+			pt.mu.Lock()
+			pt.nEntriesAfterCallerTimeout++
+			pt.mu.Unlock()
+			e.rep.Count("entries_applied_after_the_caller_was_told_timed_out", 1)
+		}
+	}
 
 	pt.mu.Lock()
 	defer pt.mu.Unlock()
-	if op.Kind == "R" && st != nil && st.Code() == codes.FailedPrecondition &&
-		(strings.Contains(st.Message(), "generation mismatch") || strings.Contains(st.Message(), "not an in-sync follower") || strings.Contains(st.Message(), "No such partition")) {
-		// the report itself was refused (an error of the failover it triggered
-		// does not mean the reporter was not counted)
+	pt.clock++
+	if op.Kind == "R" {
 		for i := len(pt.reports) - 1; i >= 0; i-- {
-			if pt.reports[i].seq == mySeq {
-				pt.reports[i].refused = true
-				break
+			if pt.reports[i].seq != mySeq {
+				continue
 			}
+			r := &pt.reports[i]
+			r.returned = pt.clock
+			r.settled = seqMode || pt.gateHeld
+			if st != nil && st.Code() == codes.FailedPrecondition &&
+				(strings.Contains(st.Message(), "generation mismatch") || strings.Contains(st.Message(), "not an in-sync follower") || strings.Contains(st.Message(), "No such partition")) {
+				// the report itself was refused (an error of the failover it triggered
+				// does not mean the reporter was not counted)
+				r.refused = true
+			} else if st != nil {
+				// the report was taken and the election it triggered failed (could not
+				// be replicated in time, or its precondition refused it)
+				r.electionFailed = true
+				pt.feStage = 1
+				pt.nFailedElections++
+				e.rep.Count("reports_whose_election_failed", 1)
+			}
+			break
 		}
 	}
 	d1 := c07Read(pt.p)
@@ -978,6 +1123,11 @@ func (pt *c07Part) exec(op c07Op) bool {
 		}
 	} else if st == nil && op.Kind == "R" {
 		pt.nReportsOK++
+		if pt.feStage == 2 {
+			pt.feStage = 0
+			pt.nLateAfterFailedElection++
+			e.rep.Count("reports_taken_after_a_failed_election_and_a_pause_longer_than_the_timeout", 1)
+		}
 	}
 	pt.observe(d1, cause)
 	return true
@@ -994,8 +1144,9 @@ type c07Case struct {
 
 type c07Outcome struct {
 	changes, isrChanges, staleRefused, reportsOK, expired, unarmed, lost, skipped int
-	pruned, failed                                                              bool
-	pauses, replaced, resumeInFlight                                            int
+	pruned, failed                                                                bool
+	pauses, replaced, resumeInFlight                                              int
+	failedElections, deadCtx, lateAfterFailedElection                             int
 }
 
 // run executes one program on a fresh stream.  prune: stop (and report the
@@ -1021,7 +1172,7 @@ func (e *c07Env) run(cs c07Case, prune bool) (c07Outcome, error) {
 	e.dropPart(pt)
 	pt.mu.Lock()
 	defer pt.mu.Unlock()
-	return c07Outcome{pt.nChanges, pt.nISRChanges, pt.nStaleRefused, pt.nReportsOK, pt.nExpiredArmed, pt.nUnarmed, pt.nLost, pt.nSkipped, pt.pruned, pt.failed, pt.nPauses, pt.nReplaced, pt.nResumeInFlight}, nil
+	return c07Outcome{pt.nChanges, pt.nISRChanges, pt.nStaleRefused, pt.nReportsOK, pt.nExpiredArmed, pt.nUnarmed, pt.nLost, pt.nSkipped, pt.pruned, pt.failed, pt.nPauses, pt.nReplaced, pt.nResumeInFlight, pt.nFailedElections, pt.nDeadCtx, pt.nLateAfterFailedElection}, nil
 }
 
 func (o c07Outcome) account(rep *kit.Report, sig string) {
@@ -1042,6 +1193,13 @@ func (o c07Outcome) account(rep *kit.Report, sig string) {
 		if o.changes > 0 {
 			rep.Count("cases_with_partition_object_replaced_and_leader_change", 1)
 		}
+	}
+	rep.Count("calls_with_expired_or_tight_context", int64(o.deadCtx))
+	if o.failedElections > 0 {
+		rep.Count("cases_with_failed_election", 1)
+	}
+	if o.lateAfterFailedElection > 0 {
+		rep.Count("cases_with_report_after_failed_election_and_elapsed_window", 1)
 	}
 	if o.changes > 0 {
 		rep.Count("cases_with_leader_change", 1)
